@@ -277,7 +277,7 @@ pub struct OrdCase {
 }
 
 fn ord_strategy() -> impl Strategy<Value = OrdCase> {
-    (prop_oneof![Just(1u32), Just(2u32), 1u32..40, Just(64u32)], 1usize..5, 1u8..9).prop_flat_map(|(m, l, alphabet)| {
+    (prop_oneof![Just(1u32), Just(2u32), 1u32..40, Just(64u32)], prop_oneof![6 => 1usize..5, 1 => 5usize..=15], 1u8..9).prop_flat_map(|(m, l, alphabet)| {
         let seq = move || prop::collection::vec(0u8..alphabet, l..(l + 14));
         (prop::collection::vec(seq(), 0..4), seq()).prop_map(move |(history, last)| OrdCase { m, l, alphabet, history, last })
     })
